@@ -367,6 +367,31 @@ fn decision_cases<X: Sx>(ctx: &Ctx, r: &mut impl RngCore, l: usize, m: usize) ->
             *di2.last_mut().unwrap() = l; // out of range, still ascending
             v.push((format!("index-out-of-range/{src}-proof"), Case::ProofVerify { pk: pk.clone(), proof: pf.clone(), header: header.clone(), ph: ph.clone(), dm: dm.clone(), di: di2 }));
             v.push((format!("missing-message/{src}-proof"), Case::ProofVerify { pk: pk.clone(), proof: pf.clone(), header: header.clone(), ph: ph.clone(), dm: dm[..dm.len() - 1].to_vec(), di: di.clone() }));
+            // the disclosed (index, message) pairs enter the challenge in the order supplied and R counts every entry:
+            // consistent pairs in another order, or one pair listed twice, are a different statement
+            let mut dm3 = dm.clone();
+            let mut di3 = di.clone();
+            dm3.push(dm[0].clone());
+            di3.push(di[0]);
+            v.push((format!("pair-repeated-at-end/{src}-proof"), Case::ProofVerify { pk: pk.clone(), proof: pf.clone(), header: header.clone(), ph: ph.clone(), dm: dm3, di: di3 }));
+            let mut dm3 = dm.clone();
+            let mut di3 = di.clone();
+            dm3.insert(0, dm[0].clone());
+            di3.insert(0, di[0]);
+            v.push((format!("pair-repeated-in-place/{src}-proof"), Case::ProofVerify { pk: pk.clone(), proof: pf.clone(), header: header.clone(), ph: ph.clone(), dm: dm3, di: di3 }));
+            let distinct = dm.iter().collect::<std::collections::HashSet<_>>().len() == dm.len();
+            if di.len() >= 2 && distinct {
+                let (rm, ri): (Vec<Bytes>, Vec<usize>) = (dm.iter().rev().cloned().collect(), di.iter().rev().copied().collect());
+                v.push((format!("pairs-reversed/{src}-proof"), Case::ProofVerify { pk: pk.clone(), proof: pf.clone(), header: header.clone(), ph: ph.clone(), dm: rm, di: ri }));
+                // (indexes reversed with the messages left in ascending-index order is NOT a case: the drafts require an
+                // ascending list, the library sorts the indexes and so verifies the same true statement - no decision
+                // of the drafts exists to compare with)
+                let mut rm = dm.clone();
+                let mut ri = di.clone();
+                rm.rotate_left(1);
+                ri.rotate_left(1);
+                v.push((format!("pairs-rotated/{src}-proof"), Case::ProofVerify { pk: pk.clone(), proof: pf.clone(), header: header.clone(), ph: ph.clone(), dm: rm, di: ri }));
+            }
         }
     }
     // --- blind_sign (commitment validation) : byte equality when both accept
